@@ -29,11 +29,12 @@ BUDGET = {'quick': dict(examples=4800, shards=16, seconds=70),
           'thorough': dict(examples=200000, shards=16, seconds=1200)}
 
 TARGETS = [
-    ({'type': 'integer'}, ['0', '12', '-3', '007', 5, -2, 'x', '1.5', '', '1e3', ' 4', None, True, '٣']),
+    # (natives that compare equal across classes - 1 / True / 1.0, 0 / False - early and late in the pools)
+    ({'type': 'integer'}, ['0', '12', '-3', '007', 5, 1, 0, -2, 'x', '1.5', '', '1e3', ' 4', None, True, False, 1.0, '٣']),
     ({'type': 'integer', 'bareNumber': False}, ['12', '$12', '12%', 'x', '']),
-    ({'type': 'number'}, ['1.5', '-0.25', '1e3', 'abc', '1,5', 'NaN', '', 3, 2.5, None, '1 000']),
+    ({'type': 'number'}, ['1.5', '-0.25', '1e3', 1, 0, 'abc', '1,5', 'NaN', '', 3, 2.5, None, '1 000', True, False, 1.0]),
     ({'type': 'number', 'decimalChar': ',', 'groupChar': '.'}, ['1,5', '1.000,5', '1.5', 'x', '']),
-    ({'type': 'boolean'}, ['true', 'false', 'True', '0', '1', 'yes', 'no', True, False, '', 'TRUE', 'f']),
+    ({'type': 'boolean'}, ['true', 'false', 'True', True, False, '0', '1', 'yes', 'no', '', 'TRUE', 'f', 1, 0, 1.0]),
     ({'type': 'boolean', 'trueValues': ['yes'], 'falseValues': ['no']}, ['yes', 'no', 'true', '']),
     ({'type': 'date'}, ['2020-01-31', '2020-13-01', '31/01/2020', 'x', '', datetime.date(2020, 2, 29), '2021-02-29']),
     ({'type': 'date', 'format': '%d/%m/%Y'}, ['31/01/2020', '2020-01-31', '32/01/2020', '', '1/2/2020']),
@@ -67,12 +68,19 @@ def base_table(draw):
             # bias towards the first (mostly valid) half so that all-valid rows are common
             row[nm] = draw(st.sampled_from(pool[:max(2, len(pool) // 2)] if draw(st.integers(0, 2)) else pool))
         rows.append(row)
-    return names, targets, rows
+    # schema-level missingValues of the resource: listed strings read as null for every field
+    missing = draw(st.sampled_from([None, None, ['', 'n/a', '-'], ['NA']]))
+    if missing:
+        for row in rows:
+            for nm in names:
+                if draw(st.integers(0, 5)) == 0:
+                    row[nm] = draw(st.sampled_from(missing + ['']))
+    return names, targets, rows, missing
 
 
 @st.composite
 def settype_case(draw):
-    names, targets, rows = draw(base_table())
+    names, targets, rows, missing = draw(base_table())
     # one set_type call: pick a pattern; every matched field gets the same target options
     regex = draw(st.booleans())
     if regex:
@@ -94,19 +102,19 @@ def settype_case(draw):
     return {'proc': 'set_type', 'names': names, 'rows': rows, 'pattern': pat, 'regex': regex,
             'options': copy.deepcopy(TARGETS[ti][0]), 'policy': draw(st.sampled_from(POLICIES)),
             'decisions': draw(st.lists(st.booleans(), min_size=1, max_size=6)),
-            'transform': transform, 'has_other': has_other, 'sel': sel}
+            'transform': transform, 'has_other': has_other, 'sel': sel, 'missing': missing}
 
 
 @st.composite
 def validate_case(draw):
-    names, targets, rows = draw(base_table())
+    names, targets, rows, missing = draw(base_table())
     kind = draw(st.sampled_from(['schema', 'schema', 'rowfn', 'fieldfn']))
     has_other = draw(st.booleans())
     sel = draw(st.sampled_from(['res1', ['res1'], 1 if has_other else 0, -1] + ([] if has_other else [None])))
     c = {'proc': 'validate', 'kind': kind, 'names': names, 'rows': rows,
          'declared': [dict({'type': 'any'}, **copy.deepcopy(TARGETS[t][0])) for t in targets],
          'policy': draw(st.sampled_from(POLICIES)), 'decisions': draw(st.lists(st.booleans(), min_size=1, max_size=6)),
-         'has_other': has_other, 'sel': sel}
+         'has_other': has_other, 'sel': sel, 'missing': missing}
     if kind != 'schema':
         c['fn_field'] = draw(st.sampled_from(names))
         c['fn'] = draw(st.sampled_from(['is_str', 'truthy', 'short']))
@@ -251,9 +259,13 @@ def check(case, ctx):
     handler = make_handler(case['policy'], case['decisions'], log)
     other = {'name': 'other', 'fields': [{'name': 'zz', 'type': 'string'}], 'rows': [{'zz': 'keep'}, {'zz': 'x'}]}
     reject = None
+    mv = case.get('missing') or ['']
+    if case.get('missing'):
+        classes.append('schema-level-missingValues')
     if case['proc'] == 'set_type':
         flds = [{'name': n, 'type': 'any'} for n in names]
-        pkg = ([other] if case['has_other'] else []) + [{'name': 'res1', 'fields': flds, 'rows': case['rows']}]
+        pkg = ([other] if case['has_other'] else []) + [{'name': 'res1', 'fields': flds, 'rows': case['rows'],
+                                                         'schema_extra': {'missingValues': mv}}]
         desc = gen.descriptor_of(pkg)
         matched = [n for n in names if (re.fullmatch(case['pattern'], n) if case['regex'] else n == case['pattern'])]
         kw = dict(copy.deepcopy(case['options']))
@@ -272,7 +284,7 @@ def check(case, ctx):
             if n in matched:
                 d.update(case['options'])
             new_fields.append(d)
-        schema = tableschema.Schema({'fields': new_fields, 'missingValues': ['']})
+        schema = tableschema.Schema({'fields': new_fields, 'missingValues': mv})
         checked = [(f.name, f) for f in schema.fields if f.name in matched]
         transform = case['transform']
         if transform:
@@ -280,7 +292,8 @@ def check(case, ctx):
         classes.append('matched=%d' % min(len(matched), 3))
     else:
         flds = [dict(d, name=n) for n, d in zip(names, case['declared'])]
-        pkg = ([other] if case['has_other'] else []) + [{'name': 'res1', 'fields': flds, 'rows': case['rows']}]
+        pkg = ([other] if case['has_other'] else []) + [{'name': 'res1', 'fields': flds, 'rows': case['rows'],
+                                                         'schema_extra': {'missingValues': mv}}]
         desc = gen.descriptor_of(pkg)
         kw = {'resources': copy.deepcopy(case['sel'])}
         if handler is not None:
@@ -292,7 +305,7 @@ def check(case, ctx):
         elif case['kind'] == 'fieldfn':
             args = [case['fn_field'], FNS[case['fn']]]
         step = dataflows.validate(*args, **kw)
-        schema = tableschema.Schema({'fields': flds, 'missingValues': ['']})
+        schema = tableschema.Schema({'fields': flds, 'missingValues': mv})
         checked = [(f.name, f) for f in schema.fields]
         transform = None
         classes.append('validate:' + case['kind'])
